@@ -158,6 +158,12 @@ func (e *Evidence) Eval() {
 	e.mu.Unlock()
 }
 
+func (e *Evidence) evals() int64 {
+	e.mu.Lock()
+	defer e.mu.Unlock()
+	return e.Evals
+}
+
 func (e *Evidence) EvalN(n int64) {
 	e.mu.Lock()
 	e.Evals += n
@@ -405,6 +411,26 @@ func SaveReplay(v any) {
 	_ = os.MkdirAll(filepath.Dir(Cfg.ReplayOut), 0o755)
 	_ = os.WriteFile(Cfg.ReplayOut, b, 0o644)
 }
+
+// Journal records the case that is about to run (overwriting the previous one).  When a goroutine of the code under test
+// that the harness cannot guard panics, the process dies before a replay file can be written; the driver then turns the
+// journal into the replay file.
+func Journal(c any) {
+	if Cfg.ReplayOut == "" {
+		return
+	}
+	journalN++
+	b, err := json.Marshal(map[string]any{"case": c, "n": journalN, "evaluations": E.evals()})
+	if err != nil {
+		return
+	}
+	p := Cfg.ReplayOut + ".journal"
+	if os.WriteFile(p+".tmp", b, 0o644) == nil {
+		_ = os.Rename(p+".tmp", p)
+	}
+}
+
+var journalN int
 
 // LoadReplayCase reads a replay file and unmarshals its "case" member.
 func LoadReplayCase(path string, into any) error {
